@@ -202,7 +202,7 @@ def gen_case(seed, tier):
                 "tcp": rng.random() < 0.2,
                 "raise_on_no_answer": rng.random() < 0.7,
                 "search": rng.choice([None, None, True, False]),
-                "lifetime": rng.choice([None, None, 2.0]),
+                "lifetime": rng.choice([None, None, None, 2.0, 2.0, 0.0]),
                 "gap": rng.choice([0.0, 0.5, 2.0, 40.0]),
             }
         )
@@ -441,6 +441,8 @@ def _result_of(ans):
         ans.canonical_name.to_text(),
         None if ans.rrset is None else _norm(ans.rrset.to_text()),
         round(ans.expiration - VT.now, 6),
+        ans.nameserver,
+        ans.port,
     )
 
 
@@ -811,6 +813,8 @@ def compare_with_model(case, real, model, world_name):
                 want = (want[0], want[1], f"c{ans['o']['len'] - 1}.chain.test.", None, exp_rel)
             if rr[:4] != want[:4]:
                 raise Violation("C16:wrong-answer", f"{tag}: real {rr[:4]}, documented {want[:4]}")
+            if (rr[5], rr[6]) != (f"10.0.0.{ans['ns'] + 1}", 53):
+                raise Violation("C16:wrong-answer", f"{tag}: the answer names {rr[5]} port {rr[6]} as its source, it came from ns{ans['ns']} (10.0.0.{ans['ns'] + 1} port 53)")
             if abs(rr[4] - want[4]) > 1e-5:
                 raise Violation("C16:wrong-expiration", f"{tag}: answer expires in {rr[4]}s, minimum TTL over the chain gives {want[4]}s")
         if abs(r["end"] - m["end"]) > 1e-5:
